@@ -21,7 +21,8 @@
           +28 u32 name (relative to strings)
           commands: +0 u16 height | +2 u16 width | +16 u32 payload (relative to raw data) | +24 u32 format
    CGFX   0 "CGFX" | 4 u16 BOM | 6 u16 header size | 8 u32 revision | 12 u32 file size | 16 u32 blocks
-          0x14 "DATA" | u32 size | 16 x (u32 count, u32 self-relative offset of a DICT); entry 1 = textures
+          0x14 "DATA" | u32 size | 16 x (u32 count, u32 self-relative offset of a DICT); entry 1 = textures;
+          self-relative = position of the field + the field, modulo 2^32 (signed offsets)
           DICT: "DICT" | u32 size | u32 count | 16-byte root | count x (u32 ref bit, u16 left, u16 right,
                 u32 self-relative name, u32 self-relative object)
           TXOB: +0 u32 type | +4 "TXOB" | +12 self-relative name | +24 u32 height | +28 u32 width |
@@ -52,8 +53,9 @@ Definition textpl_wf (t : tex) : Prop :=
   t_name t = [] /\ t_fmt t = TPL_CI8 /\ lenN (t_data t) = align (t_h t) 4 * align (t_w t) 8 /\
   lenN (t_pal t) mod 2 = 0 /\ lenN (t_pal t) / 2 < 2 ^ 16.
 
-(* a self-relative offset stored at p designates [target] *)
-Definition selfrel (f : bytes) (p target : N) : Prop := exists v, u32_at LE f p = Some v /\ target = p + v.
+(* a self-relative offset stored at p designates [target]: position + offset modulo 2^32 (the offset is a signed
+   32-bit quantity in two's complement, so the target may lie in front of the field) *)
+Definition selfrel (f : bytes) (p target : N) : Prop := exists v, u32_at LE f p = Some v /\ target = (p + v) mod 2 ^ 32.
 Definition present32 (e : endian) (f : bytes) (p : N) : Prop := exists v, u32_at e f p = Some v.
 
 (* ---------------------------------------------------------------- CTPK *)
@@ -64,7 +66,7 @@ Definition ctpk_entry (f : bytes) (tsec i : N) (t : tex) : Prop :=
     u32_at LE f (b + 12) = Some (t_fmt t) /\ u16_at LE f (b + 16) = Some (t_w t) /\ u16_at LE f (b + 18) = Some (t_h t) /\
     b + 32 <= lenN f /\
     cstr_atN f np = Some (t_name t) /\ sliceN (tsec + dp) (lenN (t_data t)) f = Some (t_data t) /\
-    tex3ds_wf sjis_valid t.
+    tex3ds_wf sjis_name t.
 
 Definition conforms_ctpk (f : bytes) (texs : list tex) : Prop :=
   lenN f < 2 ^ 32 /\ 32 <= lenN f /\ u32_at LE f 0 = Some CTPK_FMAGIC /\
@@ -128,9 +130,8 @@ Definition cgfx_entry (f : bytes) (d i : N) (t : tex) : Prop :=
 Definition conforms_cgfx (f : bytes) (texs : list tex) : Prop :=
   lenN f < 2 ^ 32 /\ u32_at LE f 0 = Some CGFX_FMAGIC /\ 0x14 <= lenN f /\
   u32_at LE f 0x14 = Some DATA_FMAGIC /\ present32 LE f 0x18 /\
-  (* the sixteen dictionary references: a count and a self-relative offset that stays inside the file *)
-  (forall j, j < 16 -> present32 LE f (0x1C + 8 * j) /\
-                       exists v, u32_at LE f (0x20 + 8 * j) = Some v /\ 0x20 + 8 * j + v <= lenN f) /\
+  (* room for the sixteen dictionary references (count, self-relative offset) *)
+  0x9C <= lenN f /\
   u32_at LE f 0x24 = Some (N.of_nat (length texs)) /\
   exists d, selfrel f 0x28 d /\
     u32_at LE f d = Some DICT_FMAGIC /\ present32 LE f (d + 4) /\
@@ -185,7 +186,7 @@ Definition textpl_wfb (t : tex) : bool :=
 
 (* the value of a self-relative offset at p *)
 Definition selfrel_of (f : bytes) (p : N) : option N :=
-  match u32_at LE f p with Some v => Some (p + v) | None => None end.
+  match u32_at LE f p with Some v => Some ((p + v) mod 2 ^ 32) | None => None end.
 
 Definition ctpk_entryb (f : bytes) (tsec i : N) (t : tex) : bool :=
   let b := 32 + 32 * i in
@@ -195,7 +196,7 @@ Definition ctpk_entryb (f : bytes) (tsec i : N) (t : tex) : bool :=
     && oN_eqb (u16_at LE f (b + 16)) (t_w t) && oN_eqb (u16_at LE f (b + 18)) (t_h t)
     && (b + 32 <=? lenN f)
     && ob_eqb (cstr_atN f np) (t_name t) && ob_eqb (sliceN (tsec + dp) (lenN (t_data t)) f) (t_data t)
-    && tex3ds_wfb sjis_valid t
+    && tex3ds_wfb sjis_name t
   | _, _ => false
   end.
 Definition conforms_ctpkb (f : bytes) (texs : list tex) : bool :=
@@ -252,13 +253,10 @@ Definition cgfx_entryb (f : bytes) (d i : N) (t : tex) : bool :=
     end
   | _, _ => false
   end.
-Definition cgfx_refb (f : bytes) (j : N) : bool :=
-  is_some (u32_at LE f (0x1C + 8 * j)) &&
-  match u32_at LE f (0x20 + 8 * j) with Some v => 0x20 + 8 * j + v <=? lenN f | None => false end.
 Definition conforms_cgfxb (f : bytes) (texs : list tex) : bool :=
   (lenN f <? 2 ^ 32) && oN_eqb (u32_at LE f 0) CGFX_FMAGIC && (0x14 <=? lenN f)
   && oN_eqb (u32_at LE f 0x14) DATA_FMAGIC && is_some (u32_at LE f 0x18)
-  && forallb (cgfx_refb f) [0; 1; 2; 3; 4; 5; 6; 7; 8; 9; 10; 11; 12; 13; 14; 15]
+  && (0x9C <=? lenN f)
   && oN_eqb (u32_at LE f 0x24) (N.of_nat (length texs))
   && match selfrel_of f 0x28 with
      | Some d =>
